@@ -7,7 +7,7 @@ use bemodel::Model;
 use serde_json::{json, Value};
 
 use crate::core::{Case, Obs, Property, Tier};
-use crate::gen::bdl::{gen_building, print_blocks, BuildCfg, Layout};
+use crate::gen::bdl::{edge_numbers, gen_building, print_blocks, BuildCfg, Layout};
 use crate::panicx::guard;
 use crate::props::c04::debug_text;
 use crate::rng::Rng;
@@ -330,7 +330,7 @@ impl Property for C01 {
         "C01"
     }
     fn rule(&self) -> String {
-        "the built binaries hulc2model and thor are spawned on the 12 shipped project directories and on synthetic project directories written by the harness's printers (a quarter with a copied VyP/GT system section, half with generated system sections, most with harness-made KyG/tbl files giving wall-only, window-only or two-sided overrides) x {default, --use-extra} x RUST_LOG {unset, info, debug}; stdout/stderr/exit status captured byte-exactly: stdout must hold exactly one JSON value (serde_json stream deserialiser) that loads to a model equal in every field (Debug text) to hulc2model::collect_hulc_data for the same directory; 4 kinds of directories without project: non-zero exit and no JSON value at any '{'/'[' offset of stdout; thor FILE -o OUT: OUT loads to the library's model (thor's own stdout is recorded, not judged); in-process: bytes arriving at fd 1 during library calls are counted and must be 0, also over generated projects whose system sections (VyP systems x equipment x terminal units, on-site production and ventilation records, GT loops/plant/air systems/zones; floor: 75 of 82 kinds seen in converted projects) drive every branch of the systems parser that runs inside each conversion; thorough repeats with the release-profile binaries; non-trivial = distinct (directory, option, RUST_LOG, profile) run".into()
+        "the built binaries hulc2model and thor are spawned on the 12 shipped project directories and on synthetic project directories written by the harness's printers (a quarter with a copied VyP/GT system section, half with generated system sections, most with harness-made KyG/tbl files giving wall-only, window-only or two-sided overrides) x {default, --use-extra} x RUST_LOG {unset, info, debug}; stdout/stderr/exit status captured byte-exactly: stdout must hold exactly one JSON value (serde_json stream deserialiser) that loads to a model equal in every field (Debug text) to hulc2model::collect_hulc_data for the same directory; 4 kinds of directories without project: non-zero exit and no JSON value at any '{'/'[' offset of stdout; thor FILE -o OUT: OUT loads to the library's model (thor's own stdout is recorded, not judged); in-process: bytes arriving at fd 1 during library calls are counted and must be 0, also over generated projects whose system sections (VyP systems x equipment x terminal units, on-site production and ventilation records, GT loops/plant/air systems/zones; floor: 75 of 82 kinds seen in converted projects) drive every branch of the systems parser that runs inside each conversion; for each of these converted models as_json() (what the tool prints) is loaded back in process and must equal the model, a third of the projects carrying edge values (0, 1e-6, 1e6) in data attributes; thorough repeats with the release-profile binaries; non-trivial = distinct (directory, option, RUST_LOG, profile) run".into()
     }
     fn assumptions(&self) -> Vec<String> {
         vec!["binaries are built by ./check from /repo's working tree without the verification cfg (dev profile; thorough also the workspace release profile)".into(), "the Windows GUI is out of scope".into()]
@@ -357,6 +357,8 @@ impl Property for C01 {
             ("library_calls_with_stdout_watched".into(), 30),
             ("models_with_one_sided_overrides".into(), tier.pick(1, 3)),
             ("distinct:syskind:".into(), 75),
+            ("distinct:edge-value:".into(), 25),
+            ("in_process_export_load_compare".into(), 200),
         ]
     }
     fn case_timeout_s(&self, tier: Tier) -> u64 {
@@ -389,7 +391,10 @@ impl Property for C01 {
                 // in process: a generated project with generated system sections (every kind of VyP system, equipment,
                 // terminal unit, on-site production record, ventilation record, GT block), fd 1 watched
                 let b = gen_building(&mut rng, &BuildCfg::full());
-                let bdl = print_blocks(&mut rng, &b.blocks(), &Layout::hulc());
+                let mut blocks = b.blocks();
+                // every third project: a few data values (not geometry) replaced by 0, 1e-6 or 1e6
+                let edges = if case.index % 3 == 1 { edge_numbers(&mut rng, &mut blocks, 0.03) } else { vec![] };
+                let bdl = print_blocks(&mut rng, &blocks, &Layout::hulc());
                 let unknown = case.index % 5 == 4;
                 let (extra, sys, sum) = crate::gen::sysxml::gen_systems(&mut rng, &b.space_names(), unknown);
                 let full = b.ctehexml_ext(&bdl, &extra, &sys);
@@ -400,8 +405,29 @@ impl Property for C01 {
                 obs.count("library_calls_with_stdout_watched");
                 obs.nontrivial(crate::rng::fnv64(full.as_bytes()));
                 match r {
-                    crate::convert::Conv::Ok(_) => {
+                    crate::convert::Conv::Ok(m) => {
                         obs.count("library-stdout:converted");
+                        for e in &edges {
+                            obs.count(&format!("edge-value:{}:{}", e.0, e.1));
+                        }
+                        // what the export tool prints is model.as_json(): it must load back to an equal model
+                        match guard(|| m.as_json().ok().and_then(|j| Model::from_json(&j).ok())) {
+                            Ok(Some(back)) => {
+                                obs.count("in_process_export_load_compare");
+                                let (a, b2) = (debug_text(&back), debug_text(&m));
+                                if a != b2 {
+                                    let pos = a.bytes().zip(b2.bytes()).position(|(x, y)| x != y).unwrap_or(a.len().min(b2.len()));
+                                    let field = b2[..pos.min(b2.len())].rsplit(|c: char| c == ' ' || c == '{' || c == '(' || c == ',').find(|t| t.ends_with(':')).unwrap_or("?").trim_end_matches(':').to_string();
+                                    obs.violation(
+                                        &format!("exported-model-differs-from-library-model:{}", field),
+                                        format!("in process: as_json() of the converted model loads back different near `{}`: loaded …{}… library …{}… (edge values: {:?})", field, a.chars().skip(pos.saturating_sub(40)).take(120).collect::<String>(), b2.chars().skip(pos.saturating_sub(40)).take(120).collect::<String>(), edges),
+                                        json!({"edge_values": format!("{:?}", edges), "bdl_head": bdl.chars().take(4000).collect::<String>()}),
+                                    );
+                                }
+                            }
+                            Ok(None) => obs.violation("stdout-json-does-not-load-as-model", format!("in process: as_json() of a converted model does not load back (edge values: {:?})", edges), json!({"edge_values": format!("{:?}", edges)})),
+                            Err(p) => obs.panic_violation(&p, json!({"where": "as_json/from_json of a converted model"})),
+                        }
                         for k in &sum.kinds {
                             obs.count(&format!("syskind:{}", k));
                         }
